@@ -210,8 +210,11 @@ class SolverWorld(World):
         if r < 0.8:
             return {"k": "opexp", "op": rng.choice(["N", "Sz", "S^2", "qubit", "qubit", "fermion"]), "seed": seed,
                     "theta_none": rng.random() < 0.3}
-        if r < 0.9:
+        if r < 0.86:
             return {"k": "rdm", "seed": seed}
+        if r < 0.92:
+            # the user modifies the Hamiltonian object held by the solver in place (scaling, constant shift, re-weighting a term)
+            return {"k": "mutate_h", "how": rng.choice(["scale", "shift", "reweight"]), "c": rng.choice([2.0, 0.5, -1.0, 1.5]), "i": rng.randrange(64)}
         return {"k": "simulate", "seed": seed, "n_eval": rng.randint(1, 3)}
 
     def _theta(self, op, n):
@@ -287,6 +290,47 @@ class SolverWorld(World):
             except Exception as ex:
                 ctx.outcome(k, "refused-undetermined")       # get_rdm's values and domain belong to C13; here it only perturbs the solver
                 ctx.ev("rdm-refused", repr(ex)[:80])
+        elif k == "mutate_h":
+            from tangelo.toolboxes.operators import QubitOperator
+            H = s.qubit_hamiltonian
+            try:
+                if op["how"] == "scale":
+                    H *= op["c"]
+                    new = {t: c * op["c"] for t, c in self.H0.items()}
+                elif op["how"] == "shift":
+                    inc = QubitOperator()
+                    inc.terms = {(): op["c"]}
+                    H += inc
+                    new = dict(self.H0)
+                    new[()] = new.get((), 0) + op["c"]
+                else:
+                    keys = [t for t in self.H0 if t]
+                    if not keys:
+                        ctx.outcome(k, "skipped")
+                        return V
+                    t = keys[op["i"] % len(keys)]
+                    inc = QubitOperator()
+                    inc.terms = {t: op["c"]}
+                    H += inc
+                    new = dict(self.H0)
+                    new[t] = new[t] + op["c"]
+            except Exception as ex:
+                ctx.outcome(k, "refused-undetermined")
+                ctx.ev("mutate_h-refused", repr(ex)[:80])
+                return V
+            s.qubit_hamiltonian = H
+            self.H0 = {t: complex(c) for t, c in new.items() if abs(c) > 1e-12}
+            self.Hd = M.dense(self.H0, self.n)
+            self.emin = float(np.linalg.eigvalsh(self.Hd)[0])
+            ctx.outcome(k, "ok")
+            ctx.probe("C08.hamiltonian_object_modified_in_place_between_evaluations")
+            if self.last_theta is not None and len(self.last_theta) == nvar:
+                try:
+                    e = quiet(s.energy_estimation, np.array(self.last_theta))
+                except Exception as ex:
+                    ctx.outcome(k, "refused-undetermined")
+                    return V
+                V += self._judge_energy(e, site, "energy_estimation-after-in-place-change-of-H", self.last_theta)
         elif k == "simulate":
             V += self._simulate(op, site, nvar)
         elif k == "bad":
